@@ -20,6 +20,8 @@ RULES = {
              "comparison in if-form; a constant result is False from is_passed under yes == 0 / quorum not reached, or the "
              "if-form of the final comparison - any other condition (a veto share, a time window, a special-cased weight) makes "
              "the decision differ from the documented formula for some tally",
+    "R04.8": "the tally is the votes cast (shared with C03 R03.1): each ballot's weight is added to exactly the tally field of its vote "
+             "and Votes::total sums all four fields",
     "R04.7": "decisions are about the recorded tally: inside the cw3 package every call of is_passed / is_rejected / current_status "
              "is made on the proposal the calling method was invoked on (`self`), never on a copy with votes added - the early "
              "decision is sound because is_passed / is_rejected bound the outstanding votes themselves; a forecast that completes the "
@@ -137,6 +139,18 @@ def run(ctx):
     check_overflow_profile(ctx)
     check_decisions(ctx, paths)
     check_receivers(ctx)
+    if ctx.pid == ID:
+        # R04.8 = C03 R03.1: the tally the decision is made on is the sum of the votes cast (add_vote adds the ballot's weight to the
+        # field of its vote, total() sums the four fields) - a tally that loses or misfiles a vote makes the exact formula decide
+        # about other votes than the ones cast
+        from . import C03
+        sub = type(ctx)("C03", ctx.facts, ctx.engine, ctx.tier, ctx.tree_hash)
+        C03.run(sub)
+        for k in sub.order:
+            o = sub.obs[k]
+            if o.rule == "R03.1" and not o.key.startswith(("anchor", "floor")):
+                ctx.ob("R04.8", o.key, True if o.status == "discharged" else (None if o.status == "undecided" else False),
+                       detail="; ".join(o.details), sites=o.sites, sample=o.sample, trivial=o.trivial)
     # ---- R04.2 / R04.3
     vb = ctx.facts.bodies.get(VOTES_NEEDED)
     if not ctx.ob("R04.2", "anchor:votes_needed", vb is not None, detail="cw3 votes_needed not found", trivial=True):
